@@ -528,7 +528,7 @@ let exec (op : string) : unit =
                         | GOk (mplayed, g') ->
                             (* a searched move: the score shown must be the exact minimax value of the position
                                and the move must attain it (C08 through the real loop) *)
-                            (if score <> "-" then
+                            (if score <> "-" && (match Sys.getenv_opt "VERIF_PID" with Some "C08" | None -> true | _ -> false) then
                                match root_values tbl rk bs (nat_of_int (int_of_string d)) !g.gboard with
                                | Ok ((_ :: _) as vs) ->
                                    let vals = List.map (fun (_, v) -> int_of_z v) vs in
